@@ -10,9 +10,9 @@ from hv.core import Outcome, check_reads, lib
 ID = "C02"
 RULE = (
     "Hypothesis draws VMDK extent specs of four kinds — hosted sparse KDMV (header- or footer-located grain directory, "
-    "redundant GD, embedded descriptor, numGTEsPerGT 512 and other powers of two, grain 8..2048 sectors, zero-grain GTEs, "
-    "stream-optimized deflate grains with/without embedded LBA and with incompressible content so multi-sector grain "
-    "headers occur), ESX COWD, SE-sparse (all four GTE types, grain indices >= 4096 so both halves of the scrambled index "
+    "redundant GD, embedded descriptor, numGTEsPerGT 512, other powers of two and 6/96/100/500, grain 8..2048 sectors, zero-grain GTEs, "
+    "stream-optimized deflate grains with/without embedded LBA, zlib levels 0/1/6/9, content from incompressible (multi-"
+    "sector grain headers) to a single byte value or zero-prefixed (shortest streams)), SE-sparse grain tables of 1..64 and 3/5 sectors, ESX COWD, SE-sparse (all four GTE types, grain indices >= 4096 so both halves of the scrambled index "
     "matter) and flat — with any capacity (not a multiple of the grain or of 16 sectors, > 128 GD entries, > 2^32 sectors), "
     "sparse described grain sets, empty grain tables, physical placement permutations with gaps; requests biased to "
     "described-grain boundaries and the tail. VMDK(fh).read and read_sectors must equal the model. Non-trivial = a request "
@@ -40,7 +40,8 @@ def extent_spec(draw, tier="quick", kind=None, layer=0, capacity=None, allow_com
         return spec
     if kind == "kdmv":
         grain = draw(st.sampled_from([128, 128, 8, 16, 64, 2048, 32, 256, 512, 1024]))
-        gtes = draw(st.sampled_from([512, 512, 512, 16, 64, 128, 2048]))
+        # numGTEsPerGT is 512 in files VMware writes; the field itself allows any count, powers of two or not
+        gtes = draw(st.sampled_from([512, 512, 512, 16, 64, 128, 2048, 6, 96, 100, 500]))
         compressed = allow_compressed and draw(st.integers(0, 2)) == 0
         spec.update(
             gtes=gtes, compressed=compressed, zero_flag=draw(st.booleans()), redundant=draw(st.sampled_from([False, False, True])),
@@ -48,7 +49,7 @@ def extent_spec(draw, tier="quick", kind=None, layer=0, capacity=None, allow_com
         )
         if compressed:
             spec.update(embedded_lba=draw(st.sampled_from([True, True, False])), footer=draw(st.sampled_from([True, True, False])),
-                        cmix=draw(st.integers(0, 2)), version=3)
+                        cmix=draw(st.integers(0, 4)), zlevel=draw(st.sampled_from([6, 6, 1, 0, 9])), version=3)
             grain = min(grain, 256)
             if draw(st.integers(0, 2)) == 0:
                 # deflate streams sized around the 512-byte sector boundaries of header + data
@@ -63,7 +64,7 @@ def extent_spec(draw, tier="quick", kind=None, layer=0, capacity=None, allow_com
         spec.update(gd_offset=draw(st.sampled_from([4, 4, 5, 100])), gd_extra=draw(st.sampled_from([0, 0, 1])), gt_reverse=draw(st.booleans()))
     else:
         grain = draw(st.sampled_from([8, 8, 16, 128, 1]))
-        gt_sectors = draw(st.sampled_from([64, 64, 1, 8]))
+        gt_sectors = draw(st.sampled_from([64, 64, 1, 8, 3, 5]))
         gtes = gt_sectors * 64
         spec.update(gt_sectors=gt_sectors, gd_slack=draw(st.sampled_from([0, 0, 1])), gt_reverse=draw(st.booleans()),
                     gt_slot_shift=draw(st.sampled_from([0, 0, 3])),
